@@ -85,6 +85,52 @@ func (s *scanner) conv(in []uint64) []uint64 {
 	return s.out[:n]
 }
 
+// longN is a sample count above 65536 that is not divisible by 2..16 (so that
+// any split into equal parts leaves a remainder).
+const longN = 70001
+
+// longCheck converts longN samples (the given values repeated) in ONE call on
+// buffers of that size and compares every result with the conversion of the
+// same samples in ordinary chunks: a conversion must not depend on how many
+// samples are converted at once. Returns the index of the first difference.
+func (s *scanner) longCheck(values []uint64) (idx int, long, short uint64) {
+	if len(values) == 0 {
+		return -1, 0, 0
+	}
+	in := make([]uint64, longN)
+	for i := range in {
+		in[i] = values[(i*7)%len(values)]
+	}
+	frames := (longN + s.ch - 1) / s.ch
+	src := operand(s.cv.S, s.ch, frames, 0)
+	dst := operand(s.cv.D, s.ch, frames, 0)
+	// dirty destination: an unconverted position must not look converted
+	poison := make([]uint64, longN)
+	for i := range poison {
+		poison[i] = 1
+	}
+	s.cv.D.Fill(dst, poison)
+	s.cv.S.Fill(src, in)
+	if p, msg := core.Guard(func() { s.cv.Call(src, dst) }); p {
+		if s.panicked == "" {
+			s.panicked = msg
+		}
+		return -1, 0, 0
+	}
+	got := make([]uint64, longN)
+	s.cv.D.Drain(dst, got)
+	for off := 0; off < longN; off += chunkN {
+		end := min(off+chunkN, longN)
+		ref := s.conv(in[off:end])
+		for i := range ref {
+			if ref[i] != got[off+i] {
+				return off + i, got[off+i], ref[i]
+			}
+		}
+	}
+	return -1, 0, 0
+}
+
 // orderCheck converts the same samples in reverse order and returns the index
 // of the first sample whose result differs from `out` (-1: none): a
 // conversion must not depend on the samples before it in the buffer.
